@@ -30,7 +30,16 @@ RULE = (
     "smoothing_error) are evaluated, updated in place 1-5 times (K / S_a / "
     "S_y scaled, overwritten with a new drawn matrix, K zeroed; e_y, x "
     "overwritten; or left alone) and evaluated again after every update "
-    "against the references for the current values.  Oracle = numpy.linalg.solve of the n-form and of the "
+    "against the references for the current values; the objects returned "
+    "by earlier evaluations (also within the limit sequences) are kept and "
+    "must stay bitwise unchanged by later calls, and no result may share "
+    "memory with an input or another result.  dtypes: n <= 6, m <= 8; K a "
+    "0/1 selection matrix, small integers or multiples of 0.5 as bool / "
+    "uint8 / int8 / int32 / int64 / float16 / float32 / float64 array, S_a "
+    "and S_y (non-integer entries, variances below 1) as float64 array, "
+    "nested list or float32 array, x / x_a / e_y as float64, float32, "
+    "integer array or list; references in float64 from the values handed "
+    "over.  Oracle = numpy.linalg.solve of the n-form and of the "
     "m-form.  Non-trivial = (n != m or a covariance with off-diagonal "
     "entries) and the case is compared (not ill-conditioned); for a "
     "history: an in-place update of K / S_a / S_y between two compared "
@@ -47,6 +56,13 @@ ASSUMPTIONS = [
     "exceeds 1e-4 are labelled ill-conditioned, counted and not compared; "
     "the m-form reference of S (a difference) is compared with the "
     "tolerance multiplied by ||S_a||/||S||",
+    "K, x are ndarrays; S_a, S_y, x_a, e_y may also be (nested) lists - "
+    "what the clean tree accepts.  Integer / bool / float16 / float32 K is "
+    "promoted to float64 by the products, so the float64 tolerance applies; "
+    "float32 covariances are inverted in single precision by scipy: there "
+    "the tolerance is multiplied by 2^29 (cases with a bound > 1e-3 are "
+    "not compared) and float32 profiles are subtracted in single precision "
+    "(2e-7 (|x| + |x_a|) ||A||)",
     "limits: ||I - A|| <= ||(K^T S_y^-1 K)^-1|| ||S_a^-1|| (K of full "
     "column rank) and ||A|| <= ||S_a|| ||K||^2 ||S_y^-1|| (spectral norms), "
     "which vanish with S_y -> 0 resp. S_a -> 0",
